@@ -422,9 +422,9 @@ class Facts:
         cur = getattr(node, "_parent", None)
         while cur is not None and cur is not self.fn:
             if isinstance(cur, (ast.For, ast.AsyncFor)) and not any(node is x for s in cur.orelse for x in ast.walk(s)):
-                out.append(f"for {norm(cur.target)} in {norm(cur.iter)}")
+                out.append(f"for {norm(cur.target)} in {expand(cur.iter, self.fn)}")
             elif isinstance(cur, ast.While):
-                out.append(f"while {norm(cur.test)}")
+                out.append(f"while {expand(cur.test, self.fn)}")
             cur = getattr(cur, "_parent", None)
         return list(reversed(out))
 
